@@ -54,6 +54,7 @@ class Writer:
         self.layout, self.rng, self.toks = layout, rng, []
         self.unknown = []       # (N, kind, index of the opening token, index of the closing token, node)
         self.encl = []
+        self.top_section = None  # (N, index of the first token) of an extensions section that ends the document element
 
     def gap(self, level, names):
         if self.layout == "basic":
@@ -69,6 +70,8 @@ class Writer:
 
     def node(self, nd, level, unk=None):
         k = nd[0]
+        if k == "e" and not nd[2] and self.layout == "mix" and self.rng.chance(1, 3):
+            nd, k = ("b", nd[1]), "b"
         if k == "t":
             self.toks.append(("t", nd[1]))
         elif k == "b":
@@ -91,6 +94,8 @@ class Writer:
                 valitem = len(flat) == 1 and flat[0][0] == "b" and flat[0][1] in ("true", "false") and self.layout == "basic"
                 for x in kids:
                     if x[0] == "u":
+                        if level == 0 and x is kids[-1] and x[2] != "choice":
+                            self.top_section = (x[1], len(self.toks))
                         for y in x[3]:
                             self.gap(level + 1, self.encl)
                             self.node(y, level + 1, unk=(x[1], x[2]))
@@ -480,10 +485,9 @@ def xer_content(t, v):
 
 
 def xer_elem(name, t, v):
-    kids = xer_content(t, v)
-    if not kids:
-        return ("b", name)
-    return ("e", name, kids)
+    # (a NULL, an empty string / list / SEQUENCE is written <name></name> as the library's CANONICAL-XER does, so that the tight
+    # layout can be compared with it; the mixed layout turns one in three into <name/>, the directed documents carry every form)
+    return ("e", name, xer_content(t, v))
 
 
 def family_docs(mods, rng, tier):
@@ -544,7 +548,7 @@ def family_docs(mods, rng, tier):
                     else:
                         tree, der, secs = ("e", rn, [("u", rn, "choice", [nd])]), None, [(h, [nd])]
                     out.append({"mod": m, "tn": rn, "label": "family:%s:%s:alt%d%s" % (m["name"], rn, i, "" if i < nk else ":unknown"), "tree": tree, "der": der,
-                                "sections": secs, "frame": "family", "sender": (tns[-1], der_tree(trees[i], val).hex(), ("e", tns[-1], [nd]))})
+                                "sections": secs, "frame": "family", "setof": "t" in big["ety"], "sender": (tns[-1], der_tree(trees[i], val).hex(), ("e", tns[-1], [nd]))})
     return out
 
 
@@ -565,15 +569,16 @@ def skip_jobs(w, doc_bytes, ids):
         ntags = sum(1 for t in w.toks[io + 1:ic + 1] if t[0] != "t")
         ret = 2 if nd[1] == N else 1
         cons = offs[ic + 1] - offs[io + 1] if ret == 1 else offs[ic] - offs[io + 1]
-        names = {N: 0}
-        ts = []
-        for t in w.toks[io + 1:]:
-            if t[0] == "t":
-                # a gap may hold several chunks (white space, comments) or none: not tags, the model counts tags only
-                continue
-            ts.append("%s%d" % (t[0], names.setdefault(t[2], len(names))))
-        jobs.append({"N": N, "kind": kind, "start": offs[io + 1], "ret": ret, "ntags": ntags, "cons": cons, "mtoks": ",".join(ts), "own": nd[1]})
+        jobs.append({"N": N, "kind": kind, "start": offs[io + 1], "ret": ret, "ntags": ntags, "cons": cons, "mtoks": model_toks(w.toks[io + 1:], N), "own": nd[1],
+                     "offs": [o - offs[io + 1] for o in offs[io + 1:]]})
     return jobs
+
+
+def model_toks(toks, N):
+    """token string of ocaml/drv_c03.ml: names become numbers (N = 0; distinct strings = distinct numbers), a text token (white
+    space, character data, comments: any number of chunks for the C) is one `t`"""
+    names = {N: 0}
+    return ",".join("t" if t[0] == "t" else "%s%d" % (t[0], names.setdefault(t[2], len(names))) for t in toks) or "-"
 
 
 def run_cases(run, model, m, cases, rng, tier, run_mod, run_lines, tagname):
@@ -590,7 +595,7 @@ def run_cases(run, model, m, cases, rng, tier, run_mod, run_lines, tagname):
                 continue
             seen.add(doc)
             lines.append("dec %s xer %s" % (c["tn"], doc.hex()))
-            meta.append((c, lay, doc))
+            meta.append((c, lay, doc, w))
             if lay != "basic" or c["frame"] == "family":
                 for j in skip_jobs(w, doc, None):
                     if len(j["mtoks"]) > 6000:
@@ -598,7 +603,38 @@ def run_cases(run, model, m, cases, rng, tier, run_mod, run_lines, tagname):
                     slines.append("xsk %s %s" % (j["N"], doc[j["start"]:].hex()))
                     smeta.append((c, lay, doc, j))
     out = run_mod(run, m, lines, tagname)
-    for (c, lay, doc, ), l, o in zip(meta, lines, out):
+    xl, xm = [], []
+    for (c, lay, doc, w), l, o in zip(meta, lines, out):
+        # (a section further inside that trips finding F_OWN ends the decode before the top-level walk is reached)
+        inner_own = sum(1 for h, fo in c["sections"] if own_is_encl(fo, h["N"], h["kind"])) > (1 if w.top_section and any(
+            h["N"] == w.top_section[0] and own_is_encl(fo, h["N"], h["kind"]) for h, fo in c["sections"][-1:]) else 0)
+        if w.top_section and len(w.toks) < 1500 and not inner_own:
+            xl.append("xextrun 0 %s" % model_toks(w.toks[w.top_section[1]:], w.top_section[0]))
+            xm.append((c, lay, doc, w, l, o))
+    if xl:
+        rcm, mo, me = run_lines(model, xl, timeout=600)
+        if rcm != 0 or len(mo) != len(xl):
+            run.violation("model:driver", {"what": "model driver failed (xextrun)", "rc": rcm, "stderr": me[-1500:]}, no_input=True)
+        else:
+            for (c, lay, doc, w, l, o), ml, mm in zip(xm, xl, mo):
+                # the extensions section that ends the document: the model's walk (phases 1 and 3) against what asn_decode reports
+                i0 = w.top_section[1]
+                offs = [0]
+                for t in w.toks:
+                    offs.append(offs[-1] + len(t[1].encode("utf-8")))
+                f, mf = o.split(), mm.split()
+                if mf[0] == "DONE":
+                    agree = f[0] == "OK" and int(f[1]) == offs[i0 + int(mf[1])]
+                else:
+                    agree = f[0] != "OK"
+                run.count("xext_" + mf[0])
+                if not agree:
+                    good = o.startswith("OK %d %s ck=" % (len(doc), c["der"] if c["der"] is not None else "ENCFAIL"))
+                    run.violation("correspondence:XerSkip.ext_run", {"what": "the walk over the extensions section (phases 1 and 3 of SEQUENCE/SET_decode_xer) and its model disagree "
+                                                                             "on where the element ends", "module": m["text"], "case": c["label"], "layout": lay,
+                                                                     "document": doc.decode("utf-8"), "command_line": l, "c": o, "model_command": ml, "model": mm,
+                                                                     "model_octets": offs[i0 + int(mf[1])] if mf[0] == "DONE" else None}, no_input=good)
+    for (c, lay, doc, w), l, o in zip(meta, lines, out):
         run.case(l)
         cat = c["label"].split("|")[-1].split(":")[0].split("@")[0]
         run.count("xskip_%s_%s" % (lay, cat if c["frame"] != "family" else "family"))
@@ -625,13 +661,14 @@ def run_cases(run, model, m, cases, rng, tier, run_mod, run_lines, tagname):
             run.case(l)
             run.count("xsk_ret%d" % j["ret"])
             exp = "%d 0 %d %d" % (j["ret"], j["ntags"], j["cons"])
+            if mm is not None:
+                mf = mm.split()
+                mm = "%s %s %s %d" % (mf[0], mf[1], mf[2], j["offs"][int(mf[3])])
             rp = {"module": m["text"], "case": c["label"], "layout": lay, "document": doc.decode("utf-8"), "enclosing": j["N"], "unknown_element": j["own"],
                   "rest_of_document": doc[j["start"]:].decode("utf-8"), "command_line": l, "c": o, "model": mm, "expected": exp,
                   "model_command": "xskrun 0 " + j["mtoks"]}
-            f = o.split()
-            cm = " ".join(f[:3]) if len(f) == 4 else o
-            if mm is not None and cm != mm:
-                run.violation("correspondence:XerSkip.skip_run", dict(rp, what="xer_skip_unknown driven over the rest of the document and its model disagree (return value, depth, tags looked at)"),
+            if mm is not None and o != mm:
+                run.violation("correspondence:XerSkip.skip_run", dict(rp, what="xer_skip_unknown driven over the rest of the document and its model disagree (return value, depth, tags looked at, octets consumed)"),
                               no_input=(o == exp))
             if o != exp:
                 run.violation("oracle:xer_skip_subtree", dict(rp, what="started behind the opening tag of an unknown element, the skip does not end exactly at that element's closing tag "
@@ -657,10 +694,10 @@ def writer_selfcheck(run, m, cases, run_mod):
         mine = write(s[2], "tight").text().encode("utf-8").hex()
         if o != "OK " + mine:
             # SET OF elements: the library writes them in the order stored (= DER order here), the writer in the value's order
-            if "t" in c.get("ety", "") or sorted(o) == sorted("OK " + mine):
+            if sorted(o) == sorted("OK " + mine):
                 run.count("xskip_writer_setof_order")
                 continue
-            bad.add(s)
+            bad.add((s[0], s[1]))
             run.violation("harness:xer-writer", {"what": "the independent XER writer and the library's CANONICAL-XER encoder differ on the sender's value",
                                                  "module": m["text"], "command_line": l, "c": o, "python": "OK " + mine}, no_input=True)
     return bad
